@@ -270,6 +270,21 @@ func C11(run *mon.Run) {
 					judge("length", pk, q, a.c, msg, digest, b)
 				}
 				judge("length", pk, q, a.c, msg, digest, nil)
+				// the valid signature with one or two bytes inserted (at every position for 0x00; r||pad||s
+				// for several pads), with a byte removed, and its ASN.1 DER form: none is r||s of 64 bytes
+				for pos := 0; pos <= 64; pos++ {
+					b := append(append(append([]byte{}, base[:pos]...), 0), base[pos:]...)
+					judge("insert-zero", pk, q, a.c, msg, digest, b)
+				}
+				for _, pad := range [][]byte{{0, 0}, {0xff}, {0, 0, 0, 0}, make([]byte, 32), make([]byte, 64)} {
+					judge("insert-pad", pk, q, a.c, msg, digest, append(append(append([]byte{}, base[:32]...), pad...), base[32:]...))
+					judge("insert-pad", pk, q, a.c, msg, digest, append(append([]byte{}, pad...), base...))
+					judge("insert-pad", pk, q, a.c, msg, digest, append(append([]byte{}, base...), pad...))
+				}
+				for _, pos := range []int{0, 31, 32, 63} {
+					judge("remove-byte", pk, q, a.c, msg, digest, append(append([]byte{}, base[:pos]...), base[pos+1:]...))
+				}
+				judge("der", pk, q, a.c, msg, digest, derSig(base))
 			}
 			// crafted key for which a signature with a tiny s exists: pick k and s', solve for d.
 			// Then r||s' verifies and r||(s'+n) (which fits in 32 bytes) must not.
@@ -318,7 +333,7 @@ func C11(run *mon.Run) {
 	c11SignVolume(run)
 	c11HasherErrors(run, run.Rand("errors"))
 	run.Require(run.Counter("reference-true") >= 100, "fewer than 100 reference-true verifications")
-	for _, k := range []string{"base", "twin", "r-boundary", "s-boundary", "swap", "other-message", "other-key", "other-curve", "bitflip", "length", "small-s", "small-s-plus-n"} {
+	for _, k := range []string{"base", "twin", "r-boundary", "s-boundary", "swap", "other-message", "other-key", "other-curve", "bitflip", "length", "insert-zero", "insert-pad", "small-s", "small-s-plus-n"} {
 		run.Require(run.Counter("mut."+k) > 0, "mutation class not exercised: "+k)
 	}
 }
@@ -385,6 +400,21 @@ func c11SignVolume(run *mon.Run) {
 	wg.Wait()
 	run.Shape("sign-volume")
 	run.Require(run.Counter("sign-volume.leading-zero-bytes.2")+run.Counter("sign-volume.leading-zero-bytes.3") >= 1, "no signature with two leading zero bytes in r or s was produced by the volume run")
+}
+
+// derSig is the ASN.1 DER encoding SEQUENCE{INTEGER r, INTEGER s} of a 64-byte r||s.
+func derSig(sig []byte) []byte {
+	enc := func(v []byte) []byte {
+		for len(v) > 1 && v[0] == 0 {
+			v = v[1:]
+		}
+		if v[0]&0x80 != 0 {
+			v = append([]byte{0}, v...)
+		}
+		return append([]byte{2, byte(len(v))}, v...)
+	}
+	body := append(enc(sig[:32]), enc(sig[32:])...)
+	return append([]byte{0x30, byte(len(body))}, body...)
 }
 
 func inRangeN(c *ref.ECCurve, b []byte) bool {
